@@ -18,6 +18,7 @@ package include
 //@   requires l != nil && l.cache != nil && visited != nil && !visited[path] && visited != l.cache
 //@   ensures [C10:stack] forall p string :: visited[p] == old(visited[p])
 //@   ensures [grow_only] forall p string :: old(visited[p]) ==> visited[p]
+//@   ensures [C09:primary_path] result0 != nil ==> result0.PrimaryPath == path
 //@   modifies visited[*], l.cache[*]
 //@   loop 1 invariant 0 - 1 <= rangeindex && rangeindex <= len(parseErrs) - 1 && journal != nil && (forall p string :: visited[p] == old(visited[p]))
 //@   loop 1 decreases len(parseErrs) - rangeindex
